@@ -36,22 +36,24 @@ func Tokens(src []byte, root ast.Vertex, clean bool) (vs []V) {
 		t := tr.Tok
 		loc := astx.KindName(tr.Owner) + "." + tr.Field
 		kind := "token"
+		kloc := loc
 		if tr.Free {
 			kind = "free-floating token"
+			kloc = "any node" // the owner of a trivia token says nothing about the defect
 		}
 		p := t.Position
 		if p == nil {
 			if len(t.Value) != 0 {
-				add(fmt.Sprintf("%s %s of %s has text but no position", kind, tokID(t), loc), fmt.Sprintf("%q", t.Value))
+				add(fmt.Sprintf("%s %s of %s has text but no position", kind, tokID(t), kloc), fmt.Sprintf("%q", t.Value))
 			}
 			continue
 		}
 		if p.StartPos < 0 || p.EndPos > len(src) || p.StartPos > p.EndPos {
-			add(fmt.Sprintf("%s %s of %s: offsets out of range", kind, tokID(t), loc), fmt.Sprintf("[%d,%d) of %d", p.StartPos, p.EndPos, len(src)))
+			add(fmt.Sprintf("%s %s of %s: offsets out of range", kind, tokID(t), kloc), fmt.Sprintf("[%d,%d) of %d", p.StartPos, p.EndPos, len(src)))
 			continue
 		}
 		if !bytes.Equal(t.Value, src[p.StartPos:p.EndPos]) && !(len(t.Value) == 0 && p.StartPos == p.EndPos) {
-			add(fmt.Sprintf("%s %s of %s: text differs from the source at its offsets", kind, tokID(t), loc), fmt.Sprintf("value %q, source[%d:%d] %q", t.Value, p.StartPos, p.EndPos, src[p.StartPos:p.EndPos]))
+			add(fmt.Sprintf("%s %s of %s: text differs from the source at its offsets", kind, tokID(t), kloc), fmt.Sprintf("value %q, source[%d:%d] %q", t.Value, p.StartPos, p.EndPos, src[p.StartPos:p.EndPos]))
 		}
 		if p.EndPos > p.StartPos || len(src) > 0 {
 			if want := lt.Line(p.StartPos); p.StartLine != want && p.StartPos < len(src) {
@@ -64,9 +66,9 @@ func Tokens(src []byte, root ast.Vertex, clean bool) (vs []V) {
 			}
 		}
 		if p.StartPos < prevEnd {
-			add(fmt.Sprintf("%s %s of %s overlaps or precedes the previous token (print order)", kind, tokID(t), loc), fmt.Sprintf("starts at %d, previous token ended at %d", p.StartPos, prevEnd))
+			add(fmt.Sprintf("%s %s of %s overlaps or precedes the previous token (print order)", kind, tokID(t), kloc), fmt.Sprintf("starts at %d, previous token ended at %d", p.StartPos, prevEnd))
 		} else if clean && p.StartPos > prevEnd {
-			add(fmt.Sprintf("gap before %s %s of %s: source bytes not covered by any token", kind, tokID(t), loc), fmt.Sprintf("%q at [%d,%d)", src[prevEnd:p.StartPos], prevEnd, p.StartPos))
+			add(fmt.Sprintf("gap before %s %s of %s: source bytes not covered by any token", kind, tokID(t), kloc), fmt.Sprintf("%q at [%d,%d)", src[prevEnd:p.StartPos], prevEnd, p.StartPos))
 		}
 		if p.EndPos > prevEnd {
 			prevEnd = p.EndPos
@@ -344,10 +346,10 @@ func Positions(src []byte, root ast.Vertex, fam string) (vs []V) {
 				continue
 			}
 			if pos.StartPos >= 0 && pos.EndPos >= 0 && (cp.StartPos < pos.StartPos || cp.EndPos > pos.EndPos) && sp.ok {
-				add("position: child not within its parent ("+where+"."+p.Field+")", fmt.Sprintf("child [%d,%d) parent [%d,%d)", cp.StartPos, cp.EndPos, pos.StartPos, pos.EndPos))
+				add("position: child "+p.Field+" not within its parent ("+where+")", fmt.Sprintf("child [%d,%d) parent [%d,%d)", cp.StartPos, cp.EndPos, pos.StartPos, pos.EndPos))
 			}
 			if cp.StartPos < prevEnd {
-				add("position: siblings overlap or are out of order ("+where+"."+p.Field+")", fmt.Sprintf("child starts at %d, previous sibling ended at %d", cp.StartPos, prevEnd))
+				add("position: child "+p.Field+" overlaps or precedes its previous sibling ("+where+")", fmt.Sprintf("child starts at %d, previous sibling ended at %d", cp.StartPos, prevEnd))
 			}
 			if cp.EndPos > prevEnd {
 				prevEnd = cp.EndPos
